@@ -111,3 +111,5 @@ def run(P, R, tier):
     _dt.check_function(P, R, "kmeans:e_step", raw_params=("data",))
     from ..engines import proto as _pp
     _pp.check_pairwise_folds(P, R, ['kmeans', 'utils'])
+    from ..engines import proto as _pbs
+    _pbs.check_block_sums(P, R, "kmeans:m_step")
